@@ -251,22 +251,37 @@ class EvaluateRealDouble : public EvaluateDouble<RealDouble>
     RCP<const Basic> floor(const Basic &x) const override
     {
         SYMENGINE_ASSERT(is_a<RealDouble>(x))
+        const double d = down_cast<const RealDouble &>(x).i;
+        if (not std::isfinite(d)) {
+            // no integer to convert to: mpz_set_d raises SIGFPE for inf/nan
+            return x.rcp_from_this();
+        }
         integer_class i;
-        mp_set_d(i, std::floor(down_cast<const RealDouble &>(x).i));
+        mp_set_d(i, std::floor(d));
         return integer(std::move(i));
     }
     RCP<const Basic> ceiling(const Basic &x) const override
     {
         SYMENGINE_ASSERT(is_a<RealDouble>(x))
+        const double d = down_cast<const RealDouble &>(x).i;
+        if (not std::isfinite(d)) {
+            // no integer to convert to: mpz_set_d raises SIGFPE for inf/nan
+            return x.rcp_from_this();
+        }
         integer_class i;
-        mp_set_d(i, std::ceil(down_cast<const RealDouble &>(x).i));
+        mp_set_d(i, std::ceil(d));
         return integer(std::move(i));
     }
     RCP<const Basic> truncate(const Basic &x) const override
     {
         SYMENGINE_ASSERT(is_a<RealDouble>(x))
+        const double d = down_cast<const RealDouble &>(x).i;
+        if (not std::isfinite(d)) {
+            // no integer to convert to: mpz_set_d raises SIGFPE for inf/nan
+            return x.rcp_from_this();
+        }
         integer_class i;
-        mp_set_d(i, std::trunc(down_cast<const RealDouble &>(x).i));
+        mp_set_d(i, std::trunc(d));
         return integer(std::move(i));
     }
     RCP<const Basic> erf(const Basic &x) const override
